@@ -1545,6 +1545,42 @@ func c12Manual(r *vk.RNG, laOp string, laArgs func(addrs [][]byte) []string, toF
 	return sc
 }
 
+// c12ManualNested: the same shape as c12Manual, but the recipient and the value are components of a tuple input
+// ("Moved(address indexed from, (address to, uint256 value) d)") and the second filter sits on the component `to`:
+// a filter declared below the top level counts like any other when shovel decides whether the log_addr filter alone
+// may restrict eth_getLogs.
+func c12ManualNested(r *vk.RNG, agg string) *c12Scenario {
+	hx := func(b []byte) string { return "0x" + hex.EncodeToString(b) }
+	sc := &c12Scenario{o: c12Opts{mode: model.ModeLog, pushdown: true, pipeline: true, nblocks: 3}, chainID: 1, refSet: map[string]bool{}, agg: agg}
+	for i := 0; i < 4; i++ {
+		sc.addrs = append(sc.addrs, r.Bytes(20))
+	}
+	tos := [][]byte{r.Bytes(20), r.Bytes(20)}
+	d := &model.Decl{Name: namePoolIG[0], Enabled: true, Table: namePoolTbl[0], ColTypes: map[string]string{}, InFilter: map[string]model.Filter{}, EventName: "Moved"}
+	d.Sources = []model.SrcRef{{Name: namePoolSrc[0], Start: 1}}
+	d.Inputs = []refmodel.Field{
+		{Name: "from", Type: refmodel.Address(), Indexed: true, Column: "f"},
+		{Name: "d", Type: refmodel.TupleOf(refmodel.F("to", refmodel.Address(), "t"), refmodel.F("value", refmodel.Uint(256), "v"))},
+	}
+	d.Block = []model.BlockField{{Name: "log_addr", Column: "log_addr", ColType: "bytea"}}
+	sc.bare = d
+	mk := func(r *vk.RNG) simnode.Log {
+		return model.MakeLog(d.EventName, d.Inputs, []any{r.Bytes(20), []any{vk.Pick(r, tos), big.NewInt(int64(r.Intn(1000)))}}, vk.Pick(r, sc.addrs))
+	}
+	sc.chain = simnode.NewChain(nextChainID(), gen.Content(gen.ChainOpts{Seed: r.U64(), MinTxs: 1, MaxTxs: 2, MaxLogs: 3, Makers: []gen.LogMaker{mk}}))
+	sc.chain.Grow(sc.o.nblocks)
+	fd := *d
+	fd.Block = append([]model.BlockField(nil), d.Block...)
+	la := &c12Site{where: "block", idx: 0, name: "log_addr", column: "log_addr", kind: "bytes", fixedLen: 20, op: "contains", filter: model.Filter{Op: "contains", Arg: []string{hx(sc.addrs[0])}}}
+	fd.Block[0].Filter = la.filter
+	f := model.Filter{Op: "eq", Arg: []string{hx(tos[0])}}
+	fd.InFilter = map[string]model.Filter{"/d/to": f}
+	sc.sites = append(sc.sites, la, &c12Site{where: "input", idx: 1, name: "d.to", column: "t", kind: "bytes", fixedLen: 20, op: f.Op, filter: f})
+	fd.FilterAgg = agg
+	sc.d = &fd
+	return sc
+}
+
 // c12ManualRef: Transfer from 5 contracts; log_addr contains [one contract]
 // combined with a reference filter on the recipient (event input) or on tx_to
 // (block field); the referenced table holds the transaction signers.
@@ -1680,6 +1716,9 @@ func c12Catalogue(c *vk.Case) {
 		c12ManualRef(r, "or", false),                                                                         // one contract, or a recipient listed in the referenced table
 		c12ManualRef(r, "", true),                                                                            // default aggregation, reference filter on a block field
 		c12ManualRef(r, "or", true),
+		c12ManualNested(r, "and"), // control: the restriction is legitimate
+		c12ManualNested(r, "or"),  // one contract, or a recipient named inside a tuple input
+		c12ManualNested(r, ""),    // the same under the default aggregation
 	} {
 		c12PipeRun(c, r, sc, "catalogue", false)
 	}
